@@ -10,35 +10,37 @@ Record inst := {
   i_torn : bool;           (* torn_down *)
   i_vid : bool;            (* verify_in_drop *)
   i_panicked : bool;       (* no_std only: `panicked` *)
-  i_helper : bool;         (* default_impl_delegator_cell holds a helper clone *)
+  i_helper : N;            (* helper clones reachable from default_impl_delegator_cell: the helper, the helper's helper, .. *)
   i_lent : N               (* clones of the mock stored in this instance's value chain *)
 }.
 
 Definition new_original : inst :=
   {| i_alive := true; i_original := true; i_torn := false; i_vid := true; i_panicked := false;
-     i_helper := false; i_lent := 0 |}.
+     i_helper := 0; i_lent := 0 |}.
 
 (* impl Clone for Unimock *)
 Definition clone_of (i : inst) : inst :=
   {| i_alive := true; i_original := false; i_torn := false; i_vid := i_vid i; i_panicked := false;
-     i_helper := false; i_lent := 0 |}.
+     i_helper := 0; i_lent := 0 |}.
 
 Definition set_torn (i : inst) : inst :=
   {| i_alive := i_alive i; i_original := i_original i; i_torn := true; i_vid := i_vid i; i_panicked := i_panicked i;
      i_helper := i_helper i; i_lent := i_lent i |}.
 Definition set_dead (i : inst) : inst :=
   {| i_alive := false; i_original := i_original i; i_torn := i_torn i; i_vid := i_vid i; i_panicked := i_panicked i;
-     i_helper := false; i_lent := 0 |}.
+     i_helper := 0; i_lent := 0 |}.
 Definition set_vid (i : inst) (b : bool) : inst :=
   {| i_alive := i_alive i; i_original := i_original i; i_torn := i_torn i; i_vid := b; i_panicked := i_panicked i;
      i_helper := i_helper i; i_lent := i_lent i |}.
 Definition set_panicked (i : inst) : inst :=
   {| i_alive := i_alive i; i_original := i_original i; i_torn := i_torn i; i_vid := i_vid i; i_panicked := true;
      i_helper := i_helper i; i_lent := i_lent i |}.
-(* AsRef<DefaultImplDelegator>: get_or_init(clone of self) *)
-Definition set_helper (i : inst) : inst :=
+(* AsRef<DefaultImplDelegator>: get_or_init(clone of self); [n] levels: a default body (or an answer
+   function) running on the helper may itself delegate, which creates the helper's own helper *)
+Definition set_helper_levels (i : inst) (n : N) : inst :=
   {| i_alive := i_alive i; i_original := i_original i; i_torn := i_torn i; i_vid := i_vid i; i_panicked := i_panicked i;
-     i_helper := true; i_lent := i_lent i |}.
+     i_helper := N.max (i_helper i) n; i_lent := i_lent i |}.
+Definition set_helper (i : inst) : inst := set_helper_levels i 1.
 (* make_ref(self.clone()) *)
 Definition add_lent (i : inst) : inst :=
   {| i_alive := i_alive i; i_original := i_original i; i_torn := i_torn i; i_vid := i_vid i; i_panicked := i_panicked i;
@@ -54,7 +56,7 @@ Fixpoint upd {X} (l : list X) (i : nat) (x : X) : list X :=
 (* handles to the shared state held by one instance: itself, its helper clone,
    the clones it lent out of its value chain *)
 Definition handles (i : inst) : N :=
-  if i_alive i then 1 + (if i_helper i then 1 else 0) + i_lent i else 0.
+  if i_alive i then 1 + i_helper i + i_lent i else 0.
 
 (* Arc::strong_count *)
 Fixpoint strong_count (is : list inst) : N :=
